@@ -2,10 +2,12 @@ package harness
 
 import (
 	"bytes"
+	"encoding/json"
 	"fmt"
 	"hash/fnv"
 	"io"
 	"os"
+	"os/exec"
 	"path/filepath"
 	"reflect"
 	"sort"
@@ -333,6 +335,26 @@ func (b *baton) yield(site int) {
 		panic(&simrt.Sentinel{Kind: "steps", Value: int64(b.step), Limit: int64(b.maxSteps)})
 	}
 	next := b.choose(false)
+	if site == -1 {
+		// the task is blocked on a cooperative lock / once: somebody else must run. Pick
+		// the next runnable task in cyclic order (deterministic, independent of strategy).
+		run := b.runnable()
+		next = -1
+		for i := 1; i <= len(b.tasks); i++ {
+			cand := (t.id + i) % len(b.tasks)
+			for _, r := range run {
+				if r == cand && cand != t.id {
+					next = cand
+				}
+			}
+			if next >= 0 {
+				break
+			}
+		}
+		if next < 0 {
+			panic("deadlock: every task is blocked on a lock held by a finished or blocked task")
+		}
+	}
 	if next == t.id || next < 0 {
 		return
 	}
@@ -604,6 +626,19 @@ func execConcurrent(n *Node, sc *Scenario) *Violation {
 	}
 	withImport := sc.Extra["import"] == "true"
 	spare := int(atoiDefault(sc.Extra["spare"], 0))
+	// prelude: the complementary call (every option flipped) of each task, so that the
+	// scenario itself contains a history of calls with different settings; state that a
+	// first call freezes then conflicts with the tasks in ANY process, also a replay's
+	for _, ts := range sc.Tasks {
+		comp := ts
+		comp.Mask ^= 31
+		comp.Combined = !comp.Combined
+		if f, text, err := prepareFile(prog.Bop, withImport, spare); err == nil {
+			simrt.SetMapOrder(simrt.OrderCanonical, 0)
+			runTask(comp, f, text)
+			simrt.SetMapOrder(simrt.OrderNative, 0)
+		}
+	}
 	// reference: each task alone, canonical map order, on its own fresh File
 	refs := make([]taskResult, len(sc.Tasks))
 	est := 0
@@ -620,6 +655,25 @@ func execConcurrent(n *Node, sc *Scenario) *Violation {
 		simrt.SetMapOrder(simrt.OrderNative, 0)
 		if refs[i].Panic != "" {
 			return &Violation{Class: "panic", Signature: "panic|solo|" + ts.Op, Detail: clipStr(refs[i].Panic, 300)}
+		}
+	}
+	// history independence: the same call made first thing in a fresh process gives the
+	// same result as here, after everything this process has already done
+	for i, ts := range sc.Tasks {
+		fr, err := freshResult(prog.Bop, withImport, spare, ts)
+		if err != nil || fr == nil {
+			sc.Extra["skipped"] = "oneshot-failed"
+			return nil
+		}
+		if fr.Panic != "" {
+			continue // judged by the in-process phases
+		}
+		ref := &refs[i]
+		same := fr.ErrNil == (ref.Err == nil) && (ref.Err != nil || (fr.OutLen == len(ref.Out) && fr.OutHash == hashOut(ref.Out))) && fr.FileHash == ref.FileHash
+		if !same {
+			return &Violation{Class: "nondeterministic-output", Signature: "nondeterministic|history|" + ts.Op,
+				Detail: fmt.Sprintf("%s (mask %05b, combined=%v) returns a different result after earlier calls in the same process than as the first call of a fresh process (%d vs %d bytes, err %v vs nil=%v)", ts.Op, ts.Mask, ts.Combined, len(ref.Out), fr.OutLen, ref.Err, fr.ErrNil),
+				Facts:  map[string]string{"op": ts.Op, "phase": "history"}}
 		}
 	}
 	// repetition under other map orders: byte-identical output ("never produces a diff")
@@ -639,7 +693,7 @@ func execConcurrent(n *Node, sc *Scenario) *Violation {
 	spareBefore := map[string]uint64{}
 	spareSlots(reflect.ValueOf(*shared), "File", spareBefore, 0)
 	globBefore := globalsSnapshot()
-	b := &baton{back: make(chan int), maxSteps: 4_000_000}
+	b := &baton{back: make(chan int), maxSteps: 20*est + 200_000}
 	seed := uint64(atoiDefault(sc.Extra["seed"], 1))
 	b.rng = prng.New(seed)
 	b.switchP = int(atoiDefault(sc.Extra["switch_p"], 8))
@@ -878,4 +932,83 @@ func execChunkIndep(n *Node, sc *Scenario) *Violation {
 		return &Violation{Class: "nondeterministic-output", Signature: "nondeterministic|chunking|format", Detail: fmt.Sprintf("Format output depends on how the reader chunks its data (%d vs %d bytes, errors %q / %q)", len(a.fmtOut), len(b.fmtOut), a.ferr, b.ferr)}
 	}
 	return nil
+}
+
+// ---------------------------------------------------------------------------------
+// fresh-process oracle: the result of a call must not depend on what the process did
+// before it. The node re-executes itself with -oneshot to obtain the result of the very
+// same call as the FIRST thing a process does.
+
+type oneshotReq struct {
+	Bop        string   `json:"bop"`
+	WithImport bool     `json:"import"`
+	Spare      int      `json:"spare"`
+	Task       TaskSpec `json:"task"`
+}
+
+type oneshotRes struct {
+	OutHash  string `json:"out"`
+	OutLen   int    `json:"len"`
+	ErrNil   bool   `json:"err_nil"`
+	ErrText  string `json:"err"`
+	FileHash uint64 `json:"file"`
+	Panic    string `json:"panic,omitempty"`
+}
+
+func hashOut(b []byte) string {
+	h := fnv.New64a()
+	h.Write(b)
+	return fmt.Sprintf("%016x", h.Sum64())
+}
+
+func oneshotMain() int {
+	var req oneshotReq
+	if err := json.NewDecoder(os.Stdin).Decode(&req); err != nil {
+		fmt.Fprintln(os.Stderr, err)
+		return 2
+	}
+	f, text, err := prepareFile(req.Bop, req.WithImport, req.Spare)
+	if err != nil {
+		json.NewEncoder(os.Stdout).Encode(oneshotRes{ErrText: "parse: " + err.Error()})
+		return 0
+	}
+	simrt.SetMapOrder(simrt.OrderCanonical, 0)
+	r := runTask(req.Task, f, text)
+	out := oneshotRes{OutHash: hashOut(r.Out), OutLen: len(r.Out), ErrNil: r.Err == nil, FileHash: r.FileHash, Panic: r.Panic}
+	if r.Err != nil {
+		out.ErrText = r.Err.Error()
+	}
+	json.NewEncoder(os.Stdout).Encode(out)
+	if c14ws != nil {
+		os.RemoveAll(c14ws.dir)
+	}
+	return 0
+}
+
+var freshCache = map[string]*oneshotRes{}
+
+// freshResult runs the task in a fresh process (memoised per call description).
+func freshResult(bop string, withImport bool, spare int, ts TaskSpec) (*oneshotRes, error) {
+	ts.MapOrder = MapOrder{}
+	req := oneshotReq{Bop: bop, WithImport: withImport, Spare: spare, Task: ts}
+	key, _ := json.Marshal(req)
+	if r, ok := freshCache[string(key)]; ok {
+		return r, nil
+	}
+	if len(freshCache) > 512 {
+		freshCache = map[string]*oneshotRes{}
+	}
+	cmd := exec.Command(os.Args[0], "-oneshot")
+	cmd.Stdin = bytes.NewReader(key)
+	var so bytes.Buffer
+	cmd.Stdout = &so
+	if err := cmd.Run(); err != nil {
+		return nil, err
+	}
+	var res oneshotRes
+	if err := json.Unmarshal(so.Bytes(), &res); err != nil {
+		return nil, err
+	}
+	freshCache[string(key)] = &res
+	return &res, nil
 }
